@@ -153,18 +153,20 @@ Hypothesis parse_ip_alphabet : forall s, parse_ip s = true -> forallb ip_char s 
 Notation validate := (validate_domain parse_ip).
 Notation newrcpt := (new_recipient parse_ip).
 
-(** a validated domain holds no at sign *)
-Lemma validate_no_at d : validate d = true -> ~ In 64 d.
+(** what a validated domain consists of: label bytes, or a bracketed literal *)
+Lemma validate_forall (P : N -> Prop) d :
+  (forall c, ip_char c = true -> P c) -> (forall c, is_dom_char c = true -> P c) -> P 91 -> P 93 -> Forall P canon_tag ->
+  validate d = true -> Forall P d.
 Proof.
-  intros V. destruct (bracket_type d) eqn:B.
+  intros Pip Pdom P91 P93 Ptag V. destruct (bracket_type d) eqn:B.
   - assert (PI : parse_ip (ip_inner d) = true).
     { unfold validate_domain in V. unfold bracket_type in B. rewrite B in V.
       destruct (N.of_nat (length d) =? 0); [discriminate|]. destruct (max_domain_len <? N.of_nat (length d)); [discriminate | exact V]. }
     apply parse_ip_alphabet in PI. unfold bracket_type in B. apply andb_true_iff in B as [B1 B2].
-    assert (ALL : forall r, forallb ip_char (firstn (length r - 1) r) = true -> last r 0 = 93 -> r <> [] -> ~ In 64 r).
-    { intros r F L Hr I. rewrite (removelast_last_split r Hr) in I. apply in_app_or in I as [I|I].
-      - rewrite forallb_forall in F. apply F in I. vm_compute in I. discriminate.
-      - destruct I as [I|[]]. rewrite L in I. discriminate. }
+    assert (ALL : forall r, forallb ip_char (firstn (length r - 1) r) = true -> last r 0 = 93 -> r <> [] -> Forall P r).
+    { intros r F L Hr. rewrite (removelast_last_split r Hr). apply Forall_app. split.
+      - apply Forall_forall. rewrite forallb_forall in F. intros c I. apply Pip. apply F. exact I.
+      - rewrite L. constructor; [exact P93 | constructor]. }
     unfold is_bracketed in B2. apply andb_true_iff in B2 as [B2 B3]. apply N.eqb_eq in B3.
     destruct d as [|d0 d1]; [discriminate|]. simpl in B2. apply N.eqb_eq in B2. subst d0.
     destruct (has_prefix ip_tag d1) eqn:T.
@@ -175,15 +177,38 @@ Proof.
       assert (Hr : r <> []).
       { intros E. rewrite E in B3. vm_compute in B3. discriminate. }
       rewrite last_app_nonempty in B3 by exact Hr.
-      intros I. apply in_app_or in I as [I|I]; [vm_compute in I; intuition discriminate|].
-      exact (ALL r PI B3 Hr I).
+      apply Forall_app. split; [exact Ptag | exact (ALL r PI B3 Hr)].
     + rewrite ip_inner_plain in PI by exact T. cbn [skipn length] in PI.
       replace (S (length d1) - 1 - 1)%nat with (length d1 - 1)%nat in PI by lia.
       assert (Hd : d1 <> []) by (intros E; subst; vm_compute in B1; discriminate).
       assert (L1 : last d1 0 = 93) by (rewrite last_cons in B3; destruct d1; [congruence|]; rewrite <- B3; apply last_default_nonempty).
-      intros [I|I]; [discriminate|]. exact (ALL d1 PI L1 Hd I).
+      constructor; [exact P91 | exact (ALL d1 PI L1 Hd)].
   - destruct (validate_label_type parse_ip d V B) as [_ [_ [D _]]].
-    intros I. rewrite forallb_forall in D. apply D in I. vm_compute in I. discriminate.
+    apply Forall_forall. rewrite forallb_forall in D. intros c I. apply Pdom. apply D. exact I.
+Qed.
+
+(** a validated domain holds no at sign *)
+Lemma validate_no_at d : validate d = true -> ~ In 64 d.
+Proof.
+  intros V I. assert (F : Forall (fun c => c <> 64) d).
+  { apply validate_forall; [ | | | | | exact V].
+    - intros c H E. subst. vm_compute in H. discriminate.
+    - intros c H E. subst. vm_compute in H. discriminate.
+    - discriminate.
+    - discriminate.
+    - apply Forall_forall. intros c H E. subst. vm_compute in H. intuition discriminate. }
+  rewrite Forall_forall in F. exact (F 64 I eq_refl).
+Qed.
+
+(** a validated domain is ASCII *)
+Lemma validate_ascii d : validate d = true -> Forall (fun c => c < 128) d.
+Proof.
+  apply validate_forall.
+  - intros c H. unfold ip_char, is_digit in H. lia.
+  - intros c H. unfold is_dom_char, is_label_char, is_alpha, is_upper, is_lower, is_digit in H. lia.
+  - lia.
+  - lia.
+  - apply Forall_forall. intros c H. vm_compute in H. intuition (subst; reflexivity).
 Qed.
 
 (** the shape of every accepted address *)
